@@ -544,6 +544,10 @@ def reference_sides(ctx, col: Collector, rule: str):
                     col.bad(rule, cons, f'on a path of ReferenceBlueprint.build the col{side}= endpoint derives from {sorted(foreign)} '
                             f'(the other side): the reference can be bound to a table/column that was not the one addressed',
                             node=last.node, file=fi.file)
+                elif not d & {f'{x}{s_}' for x in ('schema', 'table', 'col') for s_ in '12'}:
+                    # nothing could be traced (the value comes through code this dependency reading does not follow): no verdict from absence
+                    col.unk(rule, cons, f'cannot trace what the col{side}= endpoint of ReferenceBlueprint.build is computed from (`{norm(kw[0].value)[:60]}`)',
+                            node=last.node, file=fi.file)
                 elif not need <= d:
                     col.bad(rule, cons, f'on a path of ReferenceBlueprint.build the col{side}= endpoint ignores {sorted(need - d)}: '
                             f'it is not resolved from the addressed schema/table/column', node=last.node, file=fi.file)
